@@ -261,6 +261,8 @@ struct Spans {
     t: toml::Spanned<Inner>,
     m: BTreeMap<toml::Spanned<String>, toml::Spanned<bool>>,
     o: Option<toml::Spanned<i32>>,
+    kn: BTreeMap<toml::Spanned<KeyN>, bool>,
+    ke: BTreeMap<toml::Spanned<KeyE>, i32>,
 }
 
 fn st(name: &str, fs: Vec<(&str, Ty)>) -> Ty {
@@ -500,16 +502,21 @@ fn cases() -> Vec<Case> {
         name: "Spans",
         ty: st(
             "Spans",
-            vec![("a", sp(Ty::I32)), ("b", sp(Ty::Str)), ("t", sp(ty_inner())), ("m", Ty::Map(KeyTy::SpannedStr, Box::new(sp(Ty::Bool)))), ("o", opt(sp(Ty::I32)))],
+            vec![("a", sp(Ty::I32)), ("b", sp(Ty::Str)), ("t", sp(ty_inner())), ("m", Ty::Map(KeyTy::SpannedStr, Box::new(sp(Ty::Bool)))), ("o", opt(sp(Ty::I32))),
+                ("kn", Ty::Map(KeyTy::SpannedKey(Box::new(KeyTy::NewtypeStr("KeyN".into()))), Box::new(Ty::Bool))),
+                ("ke", Ty::Map(KeyTy::SpannedKey(Box::new(KeyTy::UnitVariant("KeyE".into(), vec!["A".into(), "b c".into()]))), Box::new(Ty::I32))),
+            ],
         ),
         val: None,
         real_ser: None,
         docs: vec![
-            "a = 1\nb = 'é'\nt = { x = 1 }\nm = { 'k é' = true, z = false }\no = 5\n".into(),
-            "a = 1\nb = 'x'\n[t]\nx = 1\ny = 'q'\n[m]\n".into(),
+            "a = 1\nb = 'x'\nt = { x = 1 }\nm = {}\nkn = { n1 = true, 'n é' = false }\nke = { A = 1, 'b c' = 2 }\n".into(),
+            "a = 1\nb = 'x'\nt = { x = 1 }\nm = {}\nke = { nope = 1 }\n".into(),
+            "a = 1\nb = 'é'\nt = { x = 1 }\nm = { 'k é' = true, z = false }\no = 5\nkn = {}\nke = {}\n".into(),
+            "a = 1\nb = 'x'\n[t]\nx = 1\ny = 'q'\n[m]\n[kn]\nk = true\n[ke]\n".into(),
             "a = 'no'\n".into(),
             "a = 1\nb = 2\n".into(),
-            "a = 1\nb = 'x'\nt.x = 1\nm.k = true\n".into(),
+            "a = 1\nb = 'x'\nt.x = 1\nm.k = true\nkn.'a b' = false\nke.A = 7\n".into(),
         ],
         real_de: Box::new(de_real_noser::<Spans>),
     });
